@@ -34,6 +34,8 @@ type stack struct {
 	kind  string // domains | domains-star | addresses | addresses-star
 	rules oracle.Rules
 	as    *sut.AuthStack
+	// long token parts shared by all sessions of this authenticator in the sequential block
+	sharedHead, sharedTail string
 }
 
 const letters = "abcdefghijklmnopqrstuvwxyz"
@@ -62,6 +64,8 @@ func genStacks(rep *vh.Report, env vh.Env, n int) []*stack {
 	for ci := 0; ci < n; ci++ {
 		r := vh.CaseRNG(env.Seed, "c09-config", ci)
 		st := &stack{idx: ci}
+		st.sharedHead = "eyJraWQiOiJ" + b64word(r, 61) + ".eyJ" + b64word(r, 120)
+		st.sharedTail = b64word(r, 120) + "." + b64word(r, 43)
 		var o sut.AuthOpts
 		switch ci % 4 {
 		case 0:
@@ -201,9 +205,10 @@ func queryCode(loc string) (code string, u *url.URL) {
 func TestProp(t *testing.T) {
 	env := vh.GetEnv()
 	rep := vh.NewReport("C09", "exploration")
-	rep.Rule("part A: strided enumeration of cookie-class{absent,garbage,other-key,code-key,truncated,genuine} x lifetime{past,future} x token-expiry{past,future} x refresh-token{present,absent} x introspect-answer(11 classes) x refresh-answer(10 classes) x e-mail-class(9) x rule-kind(4) against /sign_in; part B: callback state-nonce/CSRF-cookie combinations (own, cross-browser, absent, altered, prefix either way, empty, malformed, never-issued, other authenticator's) x IdP token/userinfo answers x e-mail rule over two independent /start flows; part C: sequences of 3-10 sign-ins in virtual time (cookie re-sealing) across refreshes until the lifetime passes. distinct = the tuple of dimensions that matter for the case (irrelevant IdP answers are left out), counted only when the authenticator answered")
+	rep.Rule("part A: strided enumeration of cookie-class{absent,garbage,other-key,code-key,truncated,genuine} x lifetime{past,future} x token-expiry{past,future} x refresh-token{present,absent} x introspect-answer(11 classes) x refresh-answer(10 classes) x e-mail-class(9) x rule-kind(4) against /sign_in; part B: callback state-nonce/CSRF-cookie combinations (own, cross-browser, absent, altered, prefix either way, empty, malformed, never-issued, other authenticator's) x IdP token/userinfo answers x e-mail rule over two independent /start flows; part D (concurrent): groups of 2-3 simultaneous /sign_in requests on one authenticator whose access tokens (validate path) or refresh tokens (refresh path) are long JWT-like strings related by common prefix / common suffix / one middle byte / letter case / one a prefix of the other / unrelated, same or different e-mails, every live/revoked assignment and order; the first request's IdP answer is held until the others are in flight; part C: sequences of 3-10 sign-ins in virtual time (cookie re-sealing) across refreshes until the lifetime passes. distinct = the tuple of dimensions that matter for the case (irrelevant IdP answers are left out), counted only when the authenticator answered")
 	rep.Assume("the fake IdP answers exactly as scripted and logs every call; tokens are unique per case, so sso's request coalescing never merges two cases")
 	rep.Assume("ground truth 'IdP confirmed' = scripted 200 {active:true} to introspect when no refresh is due, or a scripted well-formed 200 with a non-empty access token to the refresh grant when it is due and the session has a refresh token; a successful refresh counts as acceptance of the new token")
+	rep.Assume("concurrent groups: 'overlapped' is read off the fake IdP's own sequence numbers (the follower's call started before the first one's ended), never off the wall clock; a group that did not overlap is only not counted")
 	rep.Assume("virtual time = re-sealing cookies with shifted deadlines; every generated instant is >= 60 s away from the deadline it is compared with")
 
 	nStacks := env.Pick(4, 12)
@@ -235,6 +240,12 @@ func TestProp(t *testing.T) {
 	} else {
 		replaying = true
 	}
+	if only, skip := env.Only(streamConcurrent); !skip {
+		replaying = replaying || only >= 0
+		runConcurrent(rep, env, stacks, only)
+	} else {
+		replaying = true
+	}
 	if only, skip := env.Only(streamLifetime); !skip {
 		replaying = replaying || only >= 0
 		runLifetime(rep, env, stacks, only)
@@ -263,8 +274,12 @@ func TestProp(t *testing.T) {
 			"signin_refused_only_refresh_due_without_refresh_token", "signin_refused_only_email_rule",
 			"callback_session_created_own_flow", "callback_refused_cross_browser", "callback_refused_prefix_nonce",
 			"lifetime_expiry_observed", "lifetime_refresh_observed", "lifetime_codes_issued",
+			"concurrent_overlap_path_validate", "concurrent_overlap_path_refresh", "concurrent_code_via_validate", "concurrent_code_via_refresh",
 		} {
 			rep.Floor(f, 5)
+		}
+		for _, rel := range relations {
+			rep.Floor("concurrent_overlap_"+rel, 5)
 		}
 	}
 	if st := rep.Finish(); st == "violated" {
